@@ -192,6 +192,58 @@ theorem shutdown_request_marks_enqueued {s s' : St} (hs : step s .shutdown = som
   subst hs
   simp
 
+/-! ### Delivery does not depend on Shutdown -/
+
+/-- In every reachable state of a free-running logger in which no goroutine is inside a log call and the
+    writer has not exited, the writer's own steps (no help from producers, no Shutdown) lead to a state in
+    which the buffer is empty and everything ever enqueued has been handed to the adapter, in order. -/
+theorem delivery_without_shutdown {s : St} (h : Reachable s) (hp : s.paced = false)
+    (hq : ∀ p, s.prods p = .idle) (hd : s.w.pc ≠ .done) :
+    ∃ as s', (∀ a ∈ as, ∃ e, a = Act.w e) ∧ run s as = some s' ∧ s'.buf = [] ∧
+      expand s'.out = s.enq.map (·.2) := by
+  obtain ⟨as, s', hw, hr, hb, hc, he⟩ := canDrain_of_reachable h hp hq hd
+  refine ⟨as, s', hw, hr, hb, ?_⟩
+  have := output_is_enqueued_prefix (reachable_run h hr)
+  simp [hb, Writer.pending, hc] at this
+  rw [this, he]
+
+/-! ### The automata the trace acceptor replays are the local moves of the global step -/
+
+/-- Every producer move of the interleaving semantics is a move of the per-goroutine automaton `pstep`
+    through which the driver replays the recorded path of every log call. -/
+theorem step_p_pstep {s s' : St} {pid : Nat} {e : PEv} (hs : step s (.p pid e) = some s') :
+    pstep (s.prods pid) e = some (s'.prods pid) := by
+  cases e <;> simp only [step, St.accept, St.push] at hs <;> (repeat' split at hs) <;>
+    (try cases hs) <;> simp_all [pstep, upd]
+
+/-- Every writer move is a move of the writer automaton `wstep` through which the driver replays the
+    recorded writer trace, and the adapter output grows by exactly the writes `wstep` prescribes. -/
+theorem step_w_wstep {s s' : St} {e : WEv} (hs : step s (.w e) = some s') :
+    ∃ o, wstep s.w e = some (s'.w, o) ∧ s'.out = s.out ++ o := by
+  cases e <;> simp only [step] at hs <;> (repeat' split at hs) <;>
+    (try cases hs) <;> simp_all [wstep]
+
+/-- The forced-emptying rendezvous moves both automata. -/
+theorem step_wforce_local {s s' : St} {pid : Nat} (hs : step s (.wforce pid) = some s') :
+    wstep s.w .force = some (s'.w, []) ∧ s'.out = s.out ∧
+      pstep (s.prods pid) .forced = some (s'.prods pid) := by
+  simp only [step] at hs; (repeat' split at hs) <;> (try cases hs) <;> simp_all [wstep, pstep]
+
+/-! ### The run checker decides its specification -/
+
+/-- If `checkRun` passes, every adapter line belongs to a known goroutine and every goroutine's part of the
+    expanded output conforms to its items: in program order, every must-line present, no line more often
+    than logged, nothing that was disabled, tracer lines with exactly their entries. -/
+theorem checkRun_sound (np : Nat) (exps : Nat → List Item) (outs : List OutW)
+    (h : checkRun np exps outs = .pass) :
+    (∀ o ∈ outs, o.gid < np) ∧ ∀ g, g < np → Conforms (exps g) (expandOut g outs) :=
+  PB.Log.checkRun_sound np exps outs h
+
+/-- Conversely the per-goroutine check accepts every conforming output (items pairwise distinct). -/
+theorem checkProd_complete (gid : Nat) {es : List Item} {got : List Got} (h : Conforms es got)
+    (hd : (es.map (·.item)).Nodup) : checkProd gid es got = .pass :=
+  PB.Log.checkProd_complete gid h hd
+
 /-! ### Context tracers -/
 
 /-- A submission carries all collected entries, in order; the last one is the main line. -/
@@ -231,5 +283,74 @@ theorem channel_shapes :
 /-- The theorems above hold in particular for the logger as configured in the source. -/
 theorem reachable_from_source_config (paced : Bool) (lv : Levels) :
     Reachable (St.init PB.Gen.Log.bufferCap paced lv) := Reachable.init _ _ _
+
+/-! ### Non-vacuity: concrete runs of the model that meet the hypotheses above -/
+
+def l1 : Line := ⟨1, 3, 1, none⟩
+def l2 : Line := ⟨2, 5, 2, none⟩
+def lt : Line := ⟨9, 4, 3, some [⟨7, 1, 3⟩, ⟨8, 2, 3⟩]⟩
+
+/-- Two identical lines from one goroutine, merged into one write with one repetition; second call finds
+    the flag already set; then Shutdown drains and the writer exits. -/
+def demoMerge : List Act :=
+  [.p 0 (.call l1 (some 0) true), .p 0 (.filter true), .p 0 .enq, .p 0 (.flag true), .p 0 .tok,
+   .p 0 (.call l1 (some 0) true), .p 0 (.filter true), .p 0 .enq, .p 0 (.flag false),
+   .w .token, .w .unset, .w .slot, .w (.deq l1), .w (.deq l1), .w .empty, .w .timer,
+   .p 1 (.submit lt), .p 1 .enq, .p 1 (.flag true), .p 1 .tok,
+   .shutdown, .w .shut, .w (.fdeq lt), .w .ftimeout]
+
+example : (run (St.init 2 false ⟨3, false, []⟩) demoMerge).map (fun s => (s.out, s.w.pc)) =
+    some ([(l1, 1), (lt, 0)], .done) := by decide
+example : (run (St.init 2 false ⟨3, false, []⟩) demoMerge).map (fun s => (s.buf.length, s.enqAtShut)) =
+    some (0, 3) := by decide
+example : (run (St.init 2 false ⟨3, false, []⟩) demoMerge).map (fun s => (s.logged 0, s.logged 1)) =
+    some ([l1, l1], [lt]) := by decide
+
+/-- The hypotheses of `shutdown_drains`, `exactly_once_when_drained` are met by a reachable state with
+    non-empty output. -/
+example : ∃ s, Reachable s ∧ s.w.pc = .done ∧ s.buf = [] ∧ expand s.out = [l1, l1, lt] := by
+  refine ⟨(run (St.init 2 false ⟨3, false, []⟩) demoMerge).get (by decide),
+    reachable_run (Reachable.init _ _ _) (Option.some_get _).symm, ?_, ?_, ?_⟩ <;> decide
+
+/-- Capacity 1, paced writer: the second goroutine finds the buffer full, forces the writer through both
+    selects, enqueues afterwards; per-goroutine order and exactly-once hold. -/
+def demoFull : List Act :=
+  [.p 0 (.call l1 none true), .p 0 (.filter true), .p 0 .enq, .p 0 (.flag true), .p 0 .tok,
+   .p 1 (.call l2 none true), .p 1 (.filter true), .p 1 .full,
+   .wforce 1, .wforce 1, .w (.deq l1), .w .empty,
+   .p 1 .enqB, .p 1 (.flag false),
+   .w .timer, .w .token, .w .unset, .trigger, .w (.deq l2), .w .empty]
+
+example : (run (St.init 1 true ⟨1, false, []⟩) demoFull).map (fun s => (s.out, s.w.pc)) =
+    some ([(l1, 0), (l2, 0)], .backoff) := by decide
+example : (run (St.init 1 true ⟨1, false, []⟩) demoFull).map (fun s => (s.buf.length, s.flag, s.token)) =
+    some (0, false, false) := by decide
+
+/-- The filter: below the global level nothing passes `fastcheck`; with package levels the package's own
+    level decides, other packages fall back to the global level. -/
+example : (step (St.init 4 false ⟨4, false, []⟩) (.p 0 (.call l1 (some 0) true))).isNone = true := by decide
+example : (run (St.init 4 false ⟨4, false, []⟩)
+    [.setPkgs [(7, 2)], .p 0 (.call l1 (some 7) true), .p 0 (.filter true),
+     .p 1 (.call l1 (some 8) true), .p 1 (.filter false)]).map (fun s => (s.logged 0, s.logged 1)) =
+    some ([l1], []) := by decide
+example : enabled ⟨4, true, [(7, 2)]⟩ (some 7) 3 = true ∧ enabled ⟨4, true, [(7, 2)]⟩ (some 8) 3 = false ∧
+    threshold ⟨4, true, [(7, 2)]⟩ 7 = 2 ∧ threshold ⟨4, true, [(7, 2)]⟩ 8 = 4 := by decide
+
+/-- Merging and expansion on a batch with runs, a tracer line (never merged) and a twin at another site. -/
+example : mergeRuns [l1, l1, l1, l2, lt, lt, ⟨1, 3, 2, none⟩] =
+    [(l1, 2), (l2, 0), (lt, 0), (lt, 0), (⟨1, 3, 2, none⟩, 0)] := by decide
+example : submitLine [⟨7, 1, 3⟩, ⟨8, 2, 3⟩, ⟨9, 4, 3⟩] = some lt := by decide
+
+/-- The run checker: a conforming output passes, a lost / duplicated / filtered / reordered one fails. -/
+def exps0 : Nat → List Item := fun g =>
+  if g = 0 then [⟨1, 3, 0, .plain, [⟨some ⟨3, false, []⟩, true, 2⟩], []⟩,
+                 ⟨2, 2, 0, .plain, [⟨some ⟨3, false, []⟩, true, 1⟩], []⟩,
+                 ⟨3, 4, 0, .tracer, [⟨some ⟨3, false, []⟩, true, 1⟩], [7, 8]⟩] else []
+example : checkRun 1 exps0 [⟨0, 1, 1, none⟩, ⟨0, 3, 0, some [7, 8]⟩] = .pass := by decide
+example : checkRun 1 exps0 [⟨0, 1, 0, none⟩, ⟨0, 3, 0, some [7, 8]⟩] = .fail "lost" 0 1 := by decide
+example : checkRun 1 exps0 [⟨0, 1, 2, none⟩, ⟨0, 3, 0, some [7, 8]⟩] = .fail "duplicated" 0 1 := by decide
+example : checkRun 1 exps0 [⟨0, 1, 1, none⟩, ⟨0, 2, 0, none⟩, ⟨0, 3, 0, some [7, 8]⟩] = .fail "filtered" 0 2 := by decide
+example : checkRun 1 exps0 [⟨0, 3, 0, some [7, 8]⟩, ⟨0, 1, 1, none⟩] = .fail "lost" 0 1 := by decide
+example : checkRun 1 exps0 [⟨0, 1, 1, none⟩, ⟨0, 3, 0, some [7]⟩] = .fail "trace" 0 3 := by decide
 
 end PB.C20
